@@ -732,11 +732,38 @@ func (x *Exec) loop(s ast.Stmt, st *State, cx *Ctx, k func(*State)) {
 				}
 			}
 		}
+		// an invariant that cannot be evaluated on this tree (it names a local variable that was
+		// removed) is neither assumed nor proved: it is an obligation that fails
+		invIdx := make([]int, len(invs))
+		{
+			var live []*Clause
+			var liveIdx []int
+			for i, c := range invs {
+				n0 := len(x.errs)
+				envAt(st.fork(), hidden).evalClause(c)
+				if len(x.errs) > n0 {
+					msg := x.errs[n0]
+					x.errs = x.errs[:n0]
+					lab := c.Label
+					if lab == "" {
+						lab = fmt.Sprint(i + 1)
+					}
+					q := &Query{Ob: x.fn.name() + "#" + fmt.Sprintf("loop[%d]:inv-entry:%s", ord, lab), Kind: "invariant", Func: x.fn.name(), Tags: c.Tags,
+						Goal: "false", Expect: "unsat", Params: x.params, Broken: msg}
+					q.Trail = st.trail[:len(st.trail):len(st.trail)]
+					x.qs = append(x.qs, q)
+					continue
+				}
+				live = append(live, c)
+				liveIdx = append(liveIdx, i)
+			}
+			invs, invIdx = live, liveIdx
+		}
 		checkInvs := func(st *State, hid map[string]Val, when string) {
 			env := envAt(st, hid)
 			for i, c := range invs {
 				for _, p := range env.evalClause(c) {
-					x.oblige(st, "invariant", fmt.Sprintf("loop[%d]:%s:%s", ord, when, p.label(i+1)), p.tagsFor(c.Tags), p.term)
+					x.oblige(st, "invariant", fmt.Sprintf("loop[%d]:%s:%s", ord, when, p.label(invIdx[i]+1)), p.tagsFor(c.Tags), p.term)
 				}
 			}
 		}
